@@ -11,7 +11,8 @@ From Common Require Blake2b.
 From Hash Require XXHash Keccak Sha2 ProofsHash.
 From Hash Require Import Strobe.
 From C29 Require Import Model ModelField ModelEd25519 ModelSecp256k1 ModelHost ModelSr25519
-  Proofs ProofsSig ProofsProps ProofsSr25519 ProofsPropsSr.
+  Proofs ProofsSig ProofsProps ProofsSr25519 ProofsPropsSr ProofsGen.
+From C29 Require Gen.
 Local Open Scope Z_scope.
 
 (* every helper returns a digest of its advertised size, for every input *)
@@ -283,6 +284,25 @@ Theorem C29_host_recover_versions :
                         /\ substrate_recover_v2 msg sig = None /\ host_recover_compressed msg sig = None).
 Proof. exact host_recover_versions_all. Qed.
 Print Assumptions C29_host_recover_versions.
+
+(* the length constants of the Go packages (PublicKeyLength, SignatureLength,
+   SignatureLengthRecovery, MessageLength; regenerated from the source into Gen.v on every run)
+   are the lengths the verifiers' models insist on *)
+Theorem C29_length_constants :
+  (forall pk sig msg, ed25519_verify_signature pk sig msg = VErr <->
+     (Z.of_nat (length pk) <> Gen.ed25519_public_key_length
+      \/ Z.of_nat (length sig) <> Gen.ed25519_signature_length))
+  /\ (forall pk msg sig, secp256k1_verify_signature pk sig msg = true ->
+     Z.of_nat (length msg) = Gen.secp256k1_message_length
+     /\ Z.of_nat (length sig) = Gen.secp256k1_signature_length)
+  /\ (forall msg sig q, ecrecover msg sig = Some q ->
+     Z.of_nat (length msg) = Gen.secp256k1_message_length
+     /\ Z.of_nat (length sig) = Gen.secp256k1_signature_length_recovery)
+  /\ (forall pk msg sig, sr25519_verify_deprecated_ref pk msg sig = true ->
+     Z.of_nat (length pk) = Gen.sr25519_public_key_length
+     /\ Z.of_nat (length sig) = Gen.sr25519_signature_length).
+Proof. exact length_constants_all. Qed.
+Print Assumptions C29_length_constants.
 
 (* non-vacuity: the accepting branches of the rule theorems are inhabited (ZIP-215 small-order
    vector; an honest libsecp256k1 signature at the library and at the host level).  The RFC 8032
